@@ -130,14 +130,57 @@ Fixpoint iter_pass (fuel : nat) (P : part) : part :=
            if Nat.eqb (List.length P') (List.length P) then P' else iter_pass f P'
   end.
 
+(* an axiom instance is used only when one of its sides already occurs in the universe (matching the
+   axioms against the universe instead of enumerating blindly); rounds are repeated while the universe grows *)
+Definition in_univ (P : part) (e : elem) : bool :=
+  match find_cls P e with Some _ => true | None => false end.
+
+Definition names_subset (a b : list N) : bool := forallb (fun x => existsb (N.eqb x) b) a.
+
+(* relevance: a side that mentions every name of the instance determines the renaming; such a side must
+   already occur in the universe.  If neither side does, either side may. *)
+Definition free_names (d : nat) (t : cterm) : list N :=
+  dedupN (filter (fun x => negb (is_B x) || (x <? 4 * N.of_nat d + 3)) (cnames t)).
+Definition names_missing (a b : list N) : nat :=
+  List.length (filter (fun x => negb (existsb (N.eqb x) b)) a).
+
+Definition relevant (P : part) (d : nat) (l r : cterm) : bool :=
+  let nl := free_names d l in
+  let nr := free_names d r in
+  let inl := in_univ P (d, l) in
+  let inr := in_univ P (d, r) in
+  let ml := names_missing nl nr in   (* names of l that r does not determine *)
+  let mr := names_missing nr nl in
+  match ml, mr with
+  | O, O => inl || inr
+  | O, _ => inr || (inl && Nat.leb mr 1)       (* r mentions every name: r determines the instance *)
+  | _, O => inl || (inr && Nat.leb ml 1)
+  | _, _ => inl || inr
+  end.
+
+Definition inst_step (cap : nat) (P : part) (i : nat * cterm * cterm) : part :=
+  let '(d, l, r) := i in
+  (* beyond `cap` universe elements no further instances are added (soundness is unaffected) *)
+  if Nat.ltb cap (List.length (universe P)) then P else
+  if relevant P d l r
+  then merge (fold_left add_elem (subs d l ++ subs d r) P) (d, l) (d, r)
+  else P.
+
+Fixpoint inst_rounds (cap k : nat) (insts : list (nat * cterm * cterm)) (P : part) : part :=
+  match k with
+  | O => P
+  | S k' =>
+      let P' := fold_left (inst_step cap) insts P in
+      if Nat.eqb (List.length (universe P')) (List.length (universe P)) then P' else inst_rounds cap k' insts P'
+  end.
+
 (* the partition computed for a set of equations and a set of terms of interest *)
-Definition gcc_part (pool : list N) (maxd fuel : nat) (E : equations) (terms : list cterm) : part :=
+Definition gcc_part_cap (cap : nat) (pool : list N) (maxd fuel : nat) (E : equations) (terms : list cterm) : part :=
   let P0 := fold_left add_elem (flat_map (subs 0) terms) [] in
   let insts := instances pool maxd E in
-  let P1 := fold_left (fun P i => let '(d, l, r) := i in
-                                  fold_left add_elem (subs d l ++ subs d r) P) insts P0 in
-  let P2 := fold_left (fun P i => let '(d, l, r) := i in merge P (d, l) (d, r)) insts P1 in
-  iter_pass fuel P2.
+  iter_pass fuel (inst_rounds cap fuel insts P0).
+
+Definition gcc_part := gcc_part_cap 600.
 
 Definition gcc (pool : list N) (maxd fuel : nat) (E : equations) (terms : list cterm) (s t : cterm) : bool :=
   same_cls (gcc_part pool maxd fuel E (s :: t :: terms)) (0%nat, s) (0%nat, t).
